@@ -438,6 +438,70 @@ pub fn main(args: &[String]) {
             }
         }
     }
+    // hostile patch files: every header field of every catalogue patch overwritten with boundary values, and
+    // truncations - the result is an error or a font, never a panic (and never an overflow in strict builds)
+    let mut hostile = 0u64;
+    {
+        let font = FontRef::new(&base.bytes).unwrap();
+        let decoder = FaultyDecoder { fail_at: 0, calls: Cell::new(0), kind: 0 };
+        let mut try_one = |what: String, is_gk: bool, src: &str, entry: usize, bytes: &[u8], rep: &mut Report| {
+            hostile += 1;
+            let Ok(info) = patch_info(&font, &base.abs, src, entry) else { return };
+            let r = guarded(|| {
+                if is_gk {
+                    font.apply_glyph_keyed_patches(std::iter::once((&info, bytes)), &decoder).map(|b| b.len()).map_err(|e| format!("{e}"))
+                } else {
+                    font.apply_table_keyed_patch(&info, bytes, &decoder).map(|b| b.len()).map_err(|e| format!("{e}"))
+                }
+            });
+            if let Err(p) = r {
+                rep.violation(&format!("applying a damaged patch ({what}) panicked: {p}"), json!({"kind": "hostile-patch", "what": what}));
+            }
+        };
+        let fields = |bytes: &[u8]| -> Vec<(String, Vec<u8>)> {
+            let mut v = vec![];
+            let head = bytes.len().min(96);
+            for p in (0..head).step_by(1) {
+                for (w, vals) in [(4usize, vec![0u64, 1, 8, 9, 10, 0xFFFF, 0x7FFF_FFFF, 0xFFFF_FFFF]), (2, vec![0, 1, 0xFFFF]), (1, vec![0, 1, 0xFF])] {
+                    if p % w != 0 || p + w > bytes.len() {
+                        continue;
+                    }
+                    let mut orig = 0u64;
+                    for k in 0..w {
+                        orig = (orig << 8) | bytes[p + k] as u64;
+                    }
+                    let mut all = vals.clone();
+                    all.extend([orig.wrapping_add(1), orig.wrapping_sub(1), orig.wrapping_add(4), orig.wrapping_sub(5)]);
+                    for val in all {
+                        let mut b = bytes.to_vec();
+                        for k in 0..w {
+                            b[p + k] = (val >> (8 * (w - 1 - k))) as u8;
+                        }
+                        if b != bytes {
+                            v.push((format!("u{} at {p} = {val:#x}", 8 * w), b));
+                        }
+                    }
+                }
+            }
+            for cut in [0usize, 4, 8, 24, 25, 26, 30, bytes.len().saturating_sub(1), bytes.len() / 2] {
+                if cut < bytes.len() {
+                    v.push((format!("truncated to {cut}"), bytes[..cut].to_vec()));
+                }
+            }
+            v
+        };
+        for (i, gp) in gps.iter().enumerate() {
+            for (what, b) in fields(&gk_bytes[i]) {
+                try_one(format!("glyph keyed patch {}: {what}", i + 1), true, gp["src"].as_str().unwrap(), gp["entry"].as_u64().unwrap() as usize, &b, &mut rep);
+            }
+        }
+        for (i, tp) in tps.iter().enumerate() {
+            for (what, b) in fields(&tk_bytes[i]) {
+                try_one(format!("table keyed patch {}: {what}", i + 1), false, tp["src"].as_str().unwrap(), tp["entry"].as_u64().unwrap() as usize, &b, &mut rep);
+            }
+        }
+    }
+    rep.add("hostile_patches", hostile);
     rep.evaluations = done;
     rep.traces = done;
     rep.distinct = nontrivial;
